@@ -144,7 +144,9 @@ RearrFamily(z) ==
     \cup {R1("sort", "func", s, NoAx, 0, 0, <<>>, "default")}
     \cup {R1("partition", "func", s, NoAx, k, 0, <<>>, "default") : k \in {0, 1}}
     \cup {R1("clip", f, s, NoAx, 0, 0, <<>>, "-") : f \in {"func", "method"}}
-    \cup {R1("astype", "method", s, NoAx, 0, 0, <<>>, t) : t \in {"float64", "float32"}}
+    \* casts: widening / identity / narrowing (float64 -> float32, float16), and real <-> complex via the kind (complex128 -> float64 is handled
+    \* by NumPy with a ComplexWarning: the real part)
+    \cup {R1("astype", "method", s, NoAx, 0, 0, <<>>, t) : t \in {"float64", "float32", "float16", "complex128"}}
     \cup {R1(p, "func", s, ax, 0, 0, <<>>, "-") : p \in {"fftshift", "ifftshift"}, ax \in {NoAx} \cup {AxInt(a) : a \in AxisInts(Len(s))}}
     \cup {R1("full", "func", s, NoAx, 0, 0, t, "-") : t \in {<<2, 3>>, <<3>>}}
     : s \in RShapes}
@@ -324,7 +326,8 @@ HelperFamily(z) ==
 \* pre-1.2 methods prim.defvjp(vjpmaker(g, ans, vs, gvs, *args), argnum) / prim.defgrad / prim.defvjp_is_zero, still exported)
 ExtendFamily(z) ==
   {Cfg("userprod", api, t[1], t[2], <<>>, n, NoAx, FALSE, tbl, red, <<>>, "-", "rr", "array", NA) :
-      api \in {"defvjp", "argnums", "deprecated", "defgrad"}, n \in {0, 1}, tbl \in 0..2, red \in {0, 1},
+      \* tbl: 0 both rules, 1 argument 0 declared None, 2 argument 1 declared None, 3 both declared None (one declaration per argument)
+      api \in {"defvjp", "argnums", "deprecated", "defgrad"}, n \in {0, 1}, tbl \in 0..3, red \in {0, 1},
       t \in {tt \in (Shapes(2) \cup {<<2, 1, 3>>}) \X (Shapes(2) \cup {<<2, 1, 3>>}) : BroadcastOK(tt[1], tt[2])}}
 
 \* ---------------------------------------------------------------- smooth functions at special points (C01 / C02: "for every input")
@@ -373,7 +376,19 @@ EmptyFamily(z) ==
               "expand_dims", "squeeze", "tile", "repeat", "pad", "broadcast_to", "diag", "trace", "matmul", "tensordot", "einsum", "kron", "clip", "abs", "sqrt"},
       s \in EmptyShapes, v \in 0..1}
 
+\* ---------------------------------------------------------------- single precision (float32 / complex64 operands)
+\* The differentiated operand is a float32 / complex64 array (scal = "single"); everything else as in the binary / contract / where
+\* families.  What is under test is the CLASSIFICATION of the operand (real vs complex, its shape) by the helpers the rules share -
+\* entries are compared at single-precision tolerance (2^-10 relative) against the double-precision NumPy Jacobian.
+SingleFamily(z) ==
+  {[c EXCEPT !.scal = "single"] :
+      c \in {cc \in BinaryFamily(0) \cup ContractFamily(0) \cup WhereFamily(0) :
+                /\ cc.scal = "array" /\ cc.s # <<>>
+                /\ cc.prim \in {"add", "subtract", "multiply", "divide", "matmul", "dot", "einsum", "where", "inner", "outer", "tensordot"}
+                /\ Len(cc.s) <= 2 /\ Len(cc.s2) <= 2}}
+
 Space == CASE Family = "binary" -> BinaryFamily(0)
+           [] Family = "single" -> SingleFamily(0)
            [] Family = "empty" -> EmptyFamily(0)
            [] Family = "realinto" -> RealIntoFamily(0)
            [] Family = "special" -> SpecialFamily(0)
